@@ -10,6 +10,7 @@ from __future__ import annotations
 
 import itertools
 import math
+from decimal import Decimal
 from fractions import Fraction
 
 from mc import core, regs
@@ -18,7 +19,7 @@ from mc.ref import defs
 PROPERTY = "C05"
 LEVEL = "exploration"
 RULE = (
-    "all ordered pairs and all triples of the quantity alphabet, in a fresh registry and in registries with a history (queries naming other unit systems, another default system, a default-system round trip) (Fraction registry: ==, !=, hash, <,<=,>,>= vs exact physical values; float registry: ordering and == only where the exact values differ); "
+    "Decimal magnitudes in the float registry (pairs of units a power of ten apart: == symmetric, != its negation, exactly one of <, ==, >); all ordered pairs and all triples of the quantity alphabet, in a fresh registry and in registries with a history (queries naming other unit systems, another default system, a default-system round trip) (Fraction registry: ==, !=, hash, <,<=,>,>= vs exact physical values; float registry: ordering and == only where the exact values differ); "
     "bare-number comparisons for every alphabet quantity x {0, 1, 0.0, nan}; Unit ordering for every pair of a 12-unit alphabet; thorough: every same-dimension pair of canonical units at magnitudes {0,1}. "
     "non-trivial = distinct (registry, clause, operands) key with non-identical operands"
 )
@@ -91,7 +92,7 @@ def phys(M, mag_s, unit):
 
 def shards(tier, seed):
     out = [("alphabet", "Fraction"), ("alphabet", "float"), ("alphabet", "Fraction", "after-named-system-queries"), ("alphabet", "Fraction", "default_system=cgs"), ("alphabet", "Fraction", "default_system=imperial"),
-           ("alphabet", "Fraction", "after-default-system-round-trip"), ("numbers", "Fraction"), ("numbers", "float"), ("units", "Fraction"), ("units", "float"), ("modes",)]
+           ("alphabet", "Fraction", "after-default-system-round-trip"), ("decimal-magnitudes",), ("numbers", "Fraction"), ("numbers", "float"), ("units", "Fraction"), ("units", "float"), ("modes",)]
     if tier == "thorough":
         for b in range(12):
             out.append(("allunits", b, 12))
@@ -200,6 +201,61 @@ def run_alphabet(acc, nt, history="fresh"):
                         acc.violation(["quantity-law", "==", "not-transitive"], {"nt": nt, "a": list(items[i][:2]), "b": list(items[j][:2]), "c": list(items[k][:2])}, True, eqm[i][k])
     acc.sample({"clause": "quantity-pair", "nt": nt, "a": list(ALPHABET[0]), "b": list(ALPHABET[1]), "ops": ["==", "!=", "hash", "<", "<=", ">", ">="]})
     acc.sample({"clause": "quantity-law", "nt": nt, "triple": [list(ALPHABET[12]), list(ALPHABET[13]), list(ALPHABET[14])]})
+
+
+def run_decimal_magnitudes(acc):
+    """Decimal magnitudes in the DEFAULT (float) registry — a supported combination with its own conversion branch.
+    No exact oracle is assumed for it; the laws are: == is symmetric, != is its negation, and of a < b, a == b, a > b
+    exactly one holds for comparable operands (none is true twice), whichever operand is converted"""
+    ureg = regs.default("float")
+    Q = ureg.Quantity
+    M = model()
+
+    def decimal_exact(u1, u2):
+        """the two units differ by a power of ten: the float factor is then a short decimal literal and the Decimal
+        branch computes exactly (any other factor is rounded, and rounded arithmetic owes nobody symmetry)"""
+        try:
+            r = M.root_of_units(dict(defs.parse_expr(u1).units) if u1 else {}) / M.root_of_units(dict(defs.parse_expr(u2).units) if u2 else {})
+        except Exception:  # noqa
+            return False
+        if r.units or not r.rational or r.coef <= 0:
+            return False
+        c = r.coef
+        while c.denominator == 1 and c.numerator % 10 == 0 and c.numerator > 1:
+            c /= 10
+        while c.numerator == 1 and c.denominator % 10 == 0:
+            c *= 10
+        return c == 1
+
+    items = [(m, u) for m, u in ALPHABET if m not in ("nan",)]
+    qs = []
+    for m, u in items:
+        try:
+            qs.append(Q(Decimal(str(Fraction(m if m != "0.0" else "0").numerator)) / Decimal(str(Fraction(m if m != "0.0" else "0").denominator)), u))
+        except Exception:  # noqa
+            qs.append(None)
+    n = len(qs)
+    for i, j in itertools.product(range(n), repeat=2):
+        a, b = qs[i], qs[j]
+        if a is None or b is None or not decimal_exact(items[i][1], items[j][1]):
+            continue
+        acc.ev()
+        acc.nt(("decimal-mag", i, j))
+        case = {"registry": "float", "magnitudes": "Decimal", "a": list(items[i]), "b": list(items[j])}
+        e1, e2, ne = call(lambda: a == b), call(lambda: b == a), call(lambda: a != b)
+        if (e1[0], e1[1] if e1[0] == "ok" else None) != (e2[0], e2[1] if e2[0] == "ok" else None):
+            acc.violation(["quantity-law", "==", "not-symmetric", "Decimal-magnitudes-in-the-float-registry"], case, e1, e2)
+        if e1[0] == "ok" and ne[0] == "ok" and e1[1] == ne[1]:
+            acc.violation(["quantity-pair", "!=", "is-not-the-negation-of-==", "Decimal-magnitudes-in-the-float-registry"], case, not e1[1], ne)
+        lt, gt = call(lambda: a < b), call(lambda: a > b)
+        if lt[0] == "ok" and gt[0] == "ok" and e1[0] == "ok":
+            if [lt[1], e1[1], gt[1]].count(True) != 1:
+                acc.violation(["quantity-law", "ordering", "not-exactly-one-of-less-equal-greater", "Decimal-magnitudes-in-the-float-registry"], case, "exactly one of <, ==, >", [lt[1], e1[1], gt[1]])
+            lt2 = call(lambda: b > a)
+            if lt2 != lt:
+                acc.violation(["quantity-law", "ordering", "a<b-disagrees-with-b>a", "Decimal-magnitudes-in-the-float-registry"], case, lt, lt2)
+    acc.outcome("decimal-magnitudes")
+    acc.sample({"clause": "quantity-law", "registry": "float", "magnitudes": "Decimal", "a": ["1", "kilometer"], "b": ["1000", "meter"]})
 
 
 def run_numbers(acc, nt):
@@ -372,6 +428,8 @@ def run_shard(acc, shard, tier, seed):
     k = shard[0]
     if k == "alphabet":
         run_alphabet(acc, shard[1], shard[2] if len(shard) > 2 else "fresh")
+    elif k == "decimal-magnitudes":
+        run_decimal_magnitudes(acc)
     elif k == "numbers":
         run_numbers(acc, shard[1])
     elif k == "units":
@@ -388,7 +446,9 @@ def replay(rec):
     site, case = rec["site"], rec["case"]
     acc = core.Acc(PROPERTY)
     nt = case.get("nt", "Fraction")
-    if site[0] in ("quantity-pair", "quantity-law"):
+    if site[-1] == "Decimal-magnitudes-in-the-float-registry":
+        run_decimal_magnitudes(acc)
+    elif site[0] in ("quantity-pair", "quantity-law"):
         run_alphabet(acc, nt, case.get("registry_history", "fresh"))
         if rec.get("tier") == "thorough" and tuple(site) not in {tuple(v["site"]) for v in acc.violations}:
             for b in range(12):
